@@ -151,8 +151,8 @@ def compile_props(ctx):
 # replay / readiness / compaction are regenerated from graph.go; the properties that stand on them re-check the
 # equivalence theorems between the regenerated definitions and the hand-written model
 EXTRA_BRIDGE = {'C01': ['B_Ready', 'B_CmdClaim', 'B_CmdGrid'], 'C03': ['B_Read'], 'C05': ['B_Replay', 'B_Compact'], 'C06': ['B_Replay', 'B_CmdSet', 'B_CmdApply', 'B_CmdGrid'], 'C07': ['B_Cycle', 'B_CmdLink', 'B_CmdGrid'],
-                'C08': ['B_Replay', 'B_Ready', 'B_CmdClaim'], 'C09': ['B_Replay', 'B_Prune', 'B_CmdGrid'], 'C10': ['B_Cmd', 'B_CmdSet', 'B_CmdApply', 'B_CmdLink', 'B_CmdGrid'], 'C11': ['B_CmdGrid'], 'C12': ['B_Read'], 'C13': ['B_Read'],
-                'C14': ['B_Replay', 'B_CmdSet', 'B_CmdApply', 'B_CmdGrid'], 'C15': ['B_Replay', 'B_Ready', 'B_Cycle', 'B_CmdLink'], 'C16': ['B_CmdSet', 'B_CmdApply', 'B_CmdGrid'], 'C18': ['B_Read'],
+                'C08': ['B_Replay', 'B_Ready', 'B_CmdClaim'], 'C09': ['B_Replay', 'B_Prune', 'B_CmdNew', 'B_CmdGrid'], 'C10': ['B_Cmd', 'B_CmdSet', 'B_CmdApply', 'B_CmdLink', 'B_CmdNew', 'B_CmdGrid'], 'C11': ['B_CmdGrid'], 'C12': ['B_Read'], 'C13': ['B_Read'],
+                'C14': ['B_Replay', 'B_CmdSet', 'B_CmdApply', 'B_CmdNew', 'B_CmdGrid'], 'C15': ['B_Replay', 'B_Ready', 'B_Cycle', 'B_CmdLink'], 'C16': ['B_CmdSet', 'B_CmdApply', 'B_CmdNew', 'B_CmdGrid'], 'C18': ['B_Read'],
                 'C19': ['B_Ready'], 'C20': ['B_Replay', 'B_Compact', 'B_Cmd', 'B_CmdApply']}
 
 
@@ -420,7 +420,31 @@ def finish(ctx):
     return rc
 
 
+def prefill_bridge_cache():
+    """bin/setup: compile every bridge file once (in parallel) and remember the verdicts, so that the first check of
+    each property does not pay for the long proofs (B_CmdNew.v: ~5 min).  Nothing is remembered for a file that fails."""
+    import concurrent.futures as cf
+    ctx0 = Ctx('C00', 'quick', 1)
+    prepare(ctx0)
+    names = sorted({b for bs in EXTRA_BRIDGE.values() for b in bs} | {os.path.basename(f)[:-2] for f in glob.glob(os.path.join(COQ, 'bridge', 'B_C[0-9][0-9].v'))})
+    # dependencies between bridge files: compile the libraries the others import first
+    first = [n for n in ('B_Cmd', 'B_CmdSet', 'B_CmdApply') if n in names]
+    def one(n):
+        c = Ctx('C00', 'quick', 1)
+        c.gen_error = ctx0.gen_error
+        compile_bridge(c, n)
+        return n, all(o[1] for o in c.obligations)
+    for n in first:
+        print('bridge', *one(n), flush=True)
+    with cf.ThreadPoolExecutor(max_workers=8) as ex:
+        for n, ok in ex.map(one, [n for n in names if n not in first]):
+            print('bridge', n, ok, flush=True)
+    return 0
+
+
 def main(argv):
+    if argv and argv[0] == '--prefill-bridges':
+        return prefill_bridge_cache()
     ap = argparse.ArgumentParser()
     ap.add_argument('prop')
     ap.add_argument('--tier', default=os.environ.get('VERIF_TIER', 'quick'))
